@@ -56,6 +56,17 @@ def main():
         if f != "coq build failed":
             broken.append(("proof", "Props/%s.v" % prop, f))
 
+    # thorough tier: the independent checker re-checks the property's compiled theorems and everything they depend on
+    coqchk_summary = None
+    if tier == "thorough" and b.coq_ok and not pr["failures"]:
+        rc, out = vlib.sh("timeout 2400 coqchk -silent -o -Q coq/theories ASV -Q build/props '' %s 2>&1" % prop, cwd=ROOT, timeout=2500)
+        tail = out[-900:]
+        ok = rc == 0 and "Axioms: <none>" in out and "type-in-type: <none>" in out and "unsafe (co)fixpoints: <none>" in out \
+            and "positivity is assumed: <none>" in out
+        coqchk_summary = "coqchk -o: " + ("Axioms <none>, no type-in-type, no unsafe fixpoints, no assumed positivity" if ok else tail)
+        if not ok:
+            broken.append(("proof", "coqchk Props/%s" % prop, tail))
+
     if a.replay:
         return suites.replay(prop, a.replay)
 
@@ -132,6 +143,7 @@ def main():
         "theorems": pr["theorems"],
         "print_assumptions": pr["assumptions"],
         "proof_failures": pr["failures"],
+        "coqchk": coqchk_summary,
         "evaluations": ctx.evaluations,
         "distinct_nontrivial": len(ctx.nontrivial),
         "rule": spec["rule"],
